@@ -41,7 +41,8 @@ impl Parameters {
         let docs = YamlLoader::load_from_str(&contents).map_err(
             |e| ParameterError::ParseError(e.to_string()))?;
 
-        let doc = &docs[0];
+        let doc = docs.first().ok_or_else(
+            || ParameterError::ParseError("No YAML document found".into()))?;
         let params = &doc["opw_kinematics_geometric_parameters"];
         let dof = params["dof"].as_i64().unwrap_or(6) as i8;
         let mut sign_corrections = Self::read_sign_corrections(&doc["opw_kinematics_joint_sign_corrections"])?;
